@@ -25,7 +25,7 @@ RULE = ("inputs = seeded mutations (flip, replace, insert, delete, duplicate, tr
 ASSUMPTIONS = ["which 4xx is hinted is h11's decision (shadow h11 run on the same reads)",
                "a shadow h2 server connection decides whether an HTTP/2 byte stream is a connection error"]
 MIN_DECISIVE = {"crash": 100, "isolation": 10, "hint": 5, "goaway": 5}
-N_CASES = {"quick": 5000, "thorough": 150000}
+N_CASES = {"quick": 3000, "thorough": 150000}
 
 OK_APP = [["recv_until_end"], ["try_send", {"type": "http.response.start", "status": 200, "headers": [(b"x-ok", b"1")]}],
           ["try_send", {"type": "http.response.body", "body": b"OK", "more_body": False}]]
